@@ -653,6 +653,28 @@ func (te *TEnv) call(x *ECall) TV {
 			es := reg.sortOf(sl.Elem())
 			return TV{t: vc.sliceContent(te.st, a.t, es), sort: "(Array Int " + es + ")"}
 		}
+	case "mapHas", "mapGet":
+		if need(2) {
+			m, k := arg(0), arg(1)
+			mt, ok := types.Unalias(m.gt).Underlying().(*types.Map)
+			if !ok || m.gt == nil {
+				return te.fail("%s of non-map", x.Fn)
+			}
+			fr := &frame{vc: vc}
+			pk, ps, vk, vs := fr.mapHeaps(mt)
+			if x.Fn == "mapHas" {
+				h := vc.heapGet(te.st, pk, ps)
+				return TV{t: "(select (select " + h + " " + m.t + ") " + k.t + ")", sort: sortBool}
+			}
+			h := vc.heapGet(te.st, vk, vs)
+			return TV{t: "(select (select " + h + " " + m.t + ") " + k.t + ")", sort: reg.sortOf(mt.Elem()), gt: mt.Elem()}
+		}
+	case "bytesof":
+		// bytesof(s): abstract value of a []byte slice
+		if need(1) {
+			a := arg(0)
+			return TV{t: vc.bytesVal(te.st, a.t), sort: "BytesV"}
+		}
 	case "deref":
 		// deref(p): struct value pointed to by p
 		if need(1) {
@@ -671,6 +693,10 @@ func (te *TEnv) call(x *ECall) TV {
 			h := vc.heapGet(te.st, heapKeyCell(s), "(Array Int "+s+")")
 			return TV{t: "(select " + h + " " + a.t + ")", sort: s, gt: p.Elem()}
 		}
+	}
+	if x.Fn == "store" && len(x.Args) == 3 {
+		a, i, v := arg(0), arg(1), arg(2)
+		return TV{t: "(store " + a.t + " " + i.t + " " + v.t + ")", sort: a.sort}
 	}
 	if al, ok := smtAliases[x.Fn]; ok {
 		var as []string
